@@ -981,6 +981,24 @@ impl Model<Rust> {
     }
 }
 
+/// Forwarders to private functions for external verification harnesses. Adds no behaviour.
+#[cfg(feature = "verif-hooks")]
+pub mod verif_hooks {
+    use super::*;
+
+    pub fn asn_fixed_integer_to_rust_type(
+        int: &Integer<<Resolved as ResolveState>::RangeType>,
+    ) -> RustType {
+        Model::<Rust>::asn_fixed_integer_to_rust_type(int)
+    }
+
+    pub fn asn_extensible_integer_to_rust(
+        int: &Integer<<Resolved as ResolveState>::RangeType>,
+    ) -> RustType {
+        Model::<Rust>::asn_extensible_integer_to_rust(int)
+    }
+}
+
 struct Context<'a> {
     resolver: TagResolver<'a>,
     target: &'a mut Vec<Definition<Rust>>,
